@@ -148,6 +148,7 @@ namespace hv
     void Observer::on_start_node_failed(const NodeView &n) { node_ev("start_node_failed", n); }
     void Observer::on_before_graph_evaluation(const GraphView &gv)
     {
+        ctx().cycle_off = off(gv.evaluation_time());
         Line("cyc").i("g", g(gv)).i("t", off(gv.evaluation_time())).emit();
     }
     void Observer::on_after_graph_evaluation(const GraphView &gv)
